@@ -127,6 +127,14 @@ pub fn c15_roundtrip(c: &RefillCase) -> Outcome {
         filled.push_str(le);
     }
     let n_lines = filled.trim_end_matches(le).split(le).count();
+    // recorded finding KF2: with break_words on, a first word that does not fit beside the initial indent leaves the
+    // indent alone on the first line; unfill turns that line into a leading space (pinned by upstream's own test
+    // unfill_only_prefixes_issue_466, so not repairable without editing the suite)
+    let kf2 = if o.break_words && !o.initial.is_empty() && filled.split(le).next() == Some(o.initial) && n_lines >= 2 {
+        "[class=KF2-indent-only-first-line] "
+    } else {
+        ""
+    };
     let (text, got) = unfill(&filled);
     let mut want_text = para.clone();
     if c.trailing {
@@ -134,7 +142,7 @@ pub fn c15_roundtrip(c: &RefillCase) -> Outcome {
         want_text.push_str(le);
     }
     if text != want_text {
-        return Err(format!("unfill(fill({:?})) = {:?}, expected {:?}; filled = {:?}", para, text, want_text, filled));
+        return Err(format!("{}unfill(fill({:?})) = {:?}, expected {:?}; filled = {:?}", kf2, para, text, want_text, filled));
     }
     if got.initial_indent != o.initial {
         return Err(format!("initial indent {:?}, expected {:?}; filled = {:?}", got.initial_indent, o.initial, filled));
@@ -170,13 +178,18 @@ pub fn c16_refill(c: &RefillCase) -> Outcome {
     let mut o2 = o1.clone();
     o2.width = c.width2;
     o2.crlf = c.crlf2;
+    let kf2 = if o1.break_words && !o1.initial.is_empty() && filled.split(o1.le()).next() == Some(o1.initial) {
+        "[class=KF2-indent-only-first-line] "
+    } else {
+        ""
+    };
     let got = refill(&filled, o2.options());
     let mut want = fill(&para, o2.options());
     if c.trailing {
         want.push_str(o2.le());
     }
     if got != want {
-        return Err(format!("refill({:?}, width {}) = {:?}, expected fill(original) = {:?}", filled, c.width2, got, want));
+        return Err(format!("{}refill({:?}, width {}) = {:?}, expected fill(original) = {:?}", kf2, filled, c.width2, got, want));
     }
     Ok(true)
 }
